@@ -1154,6 +1154,10 @@ R6_TABLE = [
     (r'\|_\|', '|_vx0|'),
     (r'\|\(\)\|', '|_vx_u: ()|'),
     (r"(?<![\w.])(\w+)\.contains\(\['\+', '#'\]\)", r'vx_bstr_has_wild(\1)'),
+    # str::contains with a pattern of printable ASCII: two-character array, one character, string literal (std documentation)
+    (r"(?<![\w.])(\w+)\.contains\(\['([ -&(-\[\]-~])', '([ -&(-\[\]-~])'\]\)", lambda m: 'vx_bstr_has_any2(%s, 0x%02Xu8, 0x%02Xu8)' % (m.group(1), ord(m.group(2)), ord(m.group(3)))),
+    (r"(?<![\w.])(\w+)\.contains\('([ -&(-\[\]-~])'\)", lambda m: 'vx_bstr_has_any2(%s, 0x%02Xu8, 0x%02Xu8)' % (m.group(1), ord(m.group(2)), ord(m.group(2)))),
+    (r'(?<![\w.])(\w+)\.contains\("([ !#-\[\]-~]{1,4})"\)', lambda m: 'vx_bstr_has_sub%d(%s, %s)' % (len(m.group(2)), m.group(1), ', '.join('0x%02Xu8' % ord(c) for c in m.group(2)))),
     (r'\.(map_err|map)\(\s*([A-Z]\w*(?:::[A-Z]\w*)+)\s*\)', r'.\1(|vx_c| \2(vx_c))'),
     (r'\b([A-Za-z_][\w.]*)\s*\.map_or\(\s*([A-Za-z_][\w.]*)\s*,\s*\|val\|\s*cmp::min\(\s*\2\s*,\s*val\s*\)\s*\)', r'vx_min_opt(\2, \1)'),
     (r'([\w.]+(?:\([^()]*\))?(?:\.unwrap\(\))?)\.as_str\(\) != ([\w.]+)\.as_str\(\)', r'!vx_bstr_eq(\1.vx_b(), \2.vx_b())'),
@@ -1181,7 +1185,7 @@ def rule_R6_redirects(text, log):
             mm = next((m for m in rx.finditer(out) if mask[m.start()]), None)
             if not mm:
                 break
-            new = mm.expand(rep)
+            new = rep(mm) if callable(rep) else mm.expand(rep)
             log.append(('R6', mm.group(0), new))
             out = out[:mm.start()] + new + out[mm.end():]
     return out
